@@ -4,7 +4,8 @@ import json, sys
 pid = sys.argv[1]
 tests = sys.argv[2] if len(sys.argv) > 2 else "tests/"
 p = next(json.loads(l) for l in open("/verif/properties.jsonl") if json.loads(l)["id"] == pid)
-d = "/tmp/seed_%s" % pid
+suffix = sys.argv[3] if len(sys.argv) > 3 else ""
+d = "/tmp/seed_%s%s" % (pid, suffix)
 print(f"""You are working in a scratch git worktree of the Python library ioflo/hio at {d} (library source under {d}/src/hio, its tests under {d}/tests). Work ONLY inside {d}. Do not read, touch or depend on /repo, /verif or any other checkout.
 
 Environment facts:
